@@ -1,10 +1,13 @@
 import Cello.Config
+import Cello.ConfigType
 import CelloGen.Cfg
 import Driver.Common
 /- driver for engine `cfg` (C18): interprets the op files of harness/h_cfg.c on the model of Cello/Config.lean under the
    default configuration and prints the `O` lines the harness prints; it also runs the same program under the seven other
    configurations and reports (`S` line, and an `O model-config-divergence` line that no harness prints) whether outcome
-   list and observable contents agree — the executable form of theorem C18_config_independent. -/
+   list and observable contents agree — the executable form of theorem C18_config_independent.
+   Run-time types (`ty tybig tyre tyq tyshow tydel ob oq od`): Cello/ConfigType.lean — each configuration builds the type object
+   word by word with the index expressions regenerated from src/Type.c, evaluated under ITS constants, and answers through it. -/
 open Cello.Config
 
 def parseVal (t : String) : Option Val :=
@@ -192,6 +195,65 @@ def parseKeep (ws : List String) : Option Keep.KOp :=
   | ["hrun", h] => do some (.hrun (← parseSlot h))
   | _ => none
 
+
+/-! run-time types (model: Cello/ConfigType.lean) -/
+open Cello.CfgType in
+def rtOpNames : List String := ["ty", "tybig", "tyre", "tyq", "tyshow", "tydel", "ob", "oq", "od"]
+
+open Cello.CfgType in
+def parseInstTok (t : String) : Option Nat := (table.map (·.tok)).idxOf? t
+
+open Cello.CfgType in
+def parseInsts : List String → Option (List Nat)
+  | [] => some []
+  | t :: ts => match parseInstTok t, parseInsts ts with
+    | some v, some vs => some (v :: vs)
+    | _, _ => none
+
+def parseTyRoute (t : String) : Option Nat := ["new", "raw", "root", "con", "conraw", "conroot"].idxOf? t
+def parseObRoute (t : String) : Option Nat := ["new", "raw", "root"].idxOf? t
+def natOf (i : Int) : Nat := if i < 0 then 0 else i.toNat
+
+open Cello.CfgType in
+def parseQuery (ws : List String) : Option Query :=
+  match ws with
+  | ["cint"] => some .cint | ["len"] => some .len | ["cstr"] => some .cstr | ["cflt"] => some .cflt | ["hash"] => some .hash
+  | ["show"] => some .show | ["size"] => some .size | ["cast"] => some .cast | ["mem"] => some .mem | ["get"] => some .get
+  | ["pop"] => some .pop
+  | ["cmp", o] => do some (.cmp (← parseSlot o))
+  | ["eq", o] => do some (.eq (← parseSlot o))
+  | ["asg", o] => do some (.asg (← parseSlot o))
+  | ["copy", d] => do some (.copy (← parseSlot d))
+  | ["impl", c] => some (.impl c)
+  | ["push", k] => do some (.push (← parseInt k))
+  | ["cat", k] => do some (.cat (← parseInt k))
+  | ["resize", n] => do some (.resize (← parseInt n))
+  | _ => none
+
+open Cello.CfgType in
+/-- the run-time type operations: syntax exactly as harness/h_cfg.c checks it -/
+def parseRT (ws : List String) : Option ROp :=
+  match ws with
+  | "ty" :: t :: r :: name :: size :: is => do
+      some (.ty (← parseSlot t) (← parseTyRoute r) name (natOf (← parseInt size)) (← parseInsts is))
+  | ["tybig", t, r, name, size, n, k] => do
+      let t ← parseSlot t
+      let r ← parseTyRoute r
+      let size ← parseInt size
+      let n ← parseInt n
+      let k ← parseInt k
+      -- n instances, the table entries k, k+1, … cyclically; more than CELLO_MAX_INSTANCES (or a negative number): refused
+      let cnt := if n < 0 || k < 0 then 257 else min (natOf n) 257
+      some (.ty t r name (natOf size) ((List.range cnt).map (fun j => (natOf k + j) % table.length)))
+  | "tyre" :: t :: name :: size :: is => do some (.tyre (← parseSlot t) name (natOf (← parseInt size)) (← parseInsts is))
+  | ["tyq", t, c] => do some (.tyq (← parseSlot t) c)
+  | ["tyshow", t] => do some (.tyshow (← parseSlot t))
+  | ["tydel", t] => do some (.tydel (← parseSlot t))
+  | ["ob", o, t, r, v] => do some (.ob (← parseSlot o) (← parseSlot t) (← parseObRoute r) (← parseInt v))
+  | "oq" :: o :: q => do some (.oq (← parseSlot o) (← parseQuery q))
+  | ["od", o] => do some (.od (← parseSlot o))
+  | _ => none
+
 def showKOut : Keep.KOut → String
   | .unit => "ok"
   | .got i p => s!"hget {i}:{p}"
@@ -238,11 +300,33 @@ def main (args : List String) : IO Unit := do
   let mut ksts : List Keep.KSt := cfgs.map (fun _ => Keep.KSt.init)
   let mut nKeep := 0
   let mut kHigh := 0
+  -- run-time types: one state per configuration
+  let mut rsts : List Cello.CfgType.RSt := cfgs.map (fun _ => {})
+  let mut nRt := 0
   for l in lines do
     if Driver.isSkippable l then continue
     let ws := Driver.words l
     if ws.length > maxTok then
       IO.println "O bad-op"; nBad := nBad + 1; continue
+    if rtOpNames.contains (ws.headD "") then
+      match parseRT ws with
+      | none => IO.println "O bad-op"; nBad := nBad + 1
+      | some rop =>
+        let rs := (cfgs.zip rsts).map (fun p => Cello.CfgType.step p.1 p.2 rop)
+        let shown := rs.map (fun r => r.map (fun x => x.2.render))
+        let agree := shown.all (fun r => r == shown.head!)
+        match rs.head! with
+        | some (_, out) =>
+          nOps := nOps + 1; nRt := nRt + 1
+          IO.println s!"O {out.render}"
+          rsts := (rs.zip rsts).map (fun p => match p.1 with | some r => r.1 | none => p.2)
+        | none =>
+          nOoc := nOoc + 1
+          IO.println "O out-of-contract"
+        if !agree then
+          nDiverge := nDiverge + 1
+          IO.println "O model-config-divergence"
+      continue
     if keepOpNames.contains (ws.headD "") then
       match parseKeep ws with
       | none => IO.println "O bad-op"; nBad := nBad + 1
@@ -298,5 +382,5 @@ def main (args : List String) : IO Unit := do
         -- out of contract under the default configuration: not executed by the harness; the states stay as they are
         nOoc := nOoc + 1
         IO.println "O out-of-contract"
-  IO.println s!"O end live={(sts.head!).live.length} holders={(ksts.head!).slots.length}"
-  IO.println s!"S ops={nOps} out-of-contract={nOoc} bad={nBad} config-divergences={nDiverge} collections={collections} cache-fills={memoFills} heap-default={(sts.head!).heap.length} heap-ngc={((sts.drop 3).head!).heap.length} keep-ops={nKeep} keep-collections={(ksts.head!).collections} keep-high-slot-entries={kHigh} keep-heap-default={(ksts.head!).heap.length} keep-heap-ngc={((ksts.drop 3).head!).heap.length} edits={nEdits} elem-edits={nElemEdits}"
+  IO.println s!"O end live={(sts.head!).live.length} holders={(ksts.head!).slots.length} types={(rsts.head!).types.length} objects={(rsts.head!).objs.length}"
+  IO.println s!"S ops={nOps} out-of-contract={nOoc} bad={nBad} config-divergences={nDiverge} collections={collections} cache-fills={memoFills} heap-default={(sts.head!).heap.length} heap-ngc={((sts.drop 3).head!).heap.length} keep-ops={nKeep} keep-collections={(ksts.head!).collections} keep-high-slot-entries={kHigh} keep-heap-default={(ksts.head!).heap.length} keep-heap-ngc={((ksts.drop 3).head!).heap.length} edits={nEdits} elem-edits={nElemEdits} rt-ops={nRt}"
